@@ -273,3 +273,84 @@ Proof.
   destruct (parse_tokens ts') as [t| | |] eqn:EP; try discriminate.
   intros H. inversion H; subst. right. exists ts', t. split; assumption.
 Qed.
+
+(* ---------------------------------------------------------------------------------------------- *)
+(* the WHOLE rename pipeline (proofs/ExRenameFull.v): what ContextRefRename leaves, rename (avoid t) with the alpha steps
+   of the capture-avoiding step included, printed: its tokens are kind by kind the tokens of the source and parse back
+   to the normalised tree; and if the printed text is glue-free, lexing and parsing the text gives it too *)
+From Verif Require Import proofs.ExRenameFull.
+
+Theorem rename_full_reparse_stmt : forall (lower : N -> N) (printable : N -> bool) (from to : ExSyntax.text) inp ts t,
+  printable 10 = false -> valid_codepoints inp ->
+  lex inp = LOk ts -> parse_tokens ts = POk t ->
+  let r := rename_full lower from to t in
+  alike ts (ptoks lower printable r)
+  /\ parse_tokens (ptoks lower printable r) = POk (norm lower r)
+  /\ (glue_free lower printable r = true ->
+      exists ts', lex (print lower printable r) = LOk ts' /\ parse_tokens ts' = POk (norm lower r)).
+Proof.
+  intros lower printable from to inp ts t Hnl Hv HL HP r.
+  assert (Hok : Forall tokok ts) by (eapply lex_tokok; eassumption).
+  destruct (reparse_rename_full lower printable from to ts t Hnl Hok HP) as [H1 H2]. fold r in H1, H2.
+  split; [exact H1|]. split; [exact H2|]. intros HG. exists (ptoks lower printable r).
+  split; [apply lex_print; exact HG|exact H2].
+Qed.
+
+(* no spurious error: for an accepted source with a free reference named like `from`, refactor.expression with the
+   rename transformation returns the printed renamed tree - not an error, not "outside" - whenever that text is
+   glue-free (the read-back step of refactor_expression succeeds) *)
+Theorem rename_no_spurious_error_stmt : forall (lower : N -> N) (printable : N -> bool) (from to : ExSyntax.text) inp ts t,
+  printable 10 = false -> valid_codepoints inp ->
+  lex inp = LOk ts -> parse_tokens ts = POk t ->
+  existsb (is_from lower from) (frefs (is_from lower from) t) = true ->
+  glue_free lower printable (rename_full lower from to t) = true ->
+  refactor_expression lower printable (rename_tx lower from to) inp = ROk (print lower printable (rename_full lower from to t)).
+Proof.
+  intros lower printable from to inp ts t Hnl Hv HL HP Hex HG.
+  destruct (rename_full_reparse_stmt lower printable from to inp ts t Hnl Hv HL HP) as (_ & _ & H3).
+  destruct (H3 HG) as (ts' & HL' & HP').
+  unfold refactor_expression. rewrite HL, HP. unfold rename_tx. rewrite Hex. cbv zeta. rewrite HL', HP'. reflexivity.
+Qed.
+
+(* ... with the side conditions on the SOURCE and on the new name (proofs/ExRenameGlue.v): the conditions of
+   c11_roundtrip_source on the source tree, the new name a NAME lexeme and no keyword (pname_ok of its lower case), and
+   the names the replacement refers to likewise (for a replacement that is a NAME this is the same condition) *)
+From Verif Require Import proofs.ExRenameGlue.
+
+Theorem rename_full_source_stmt : forall (lower : N -> N) (printable : N -> bool) (from to : ExSyntax.text) inp ts t,
+  printable 10 = false -> (forall c, lower (lower c) = lower c) -> lower 95 = 95 -> valid_codepoints inp ->
+  lex inp = LOk ts -> parse_tokens ts = POk t ->
+  refs_ok lower t = true -> texts_ok t = true ->
+  pname_ok (map lower to) = true -> (forall n, In n (target_names lower to) -> pname_ok n = true) ->
+  let r := rename_full lower from to t in
+  exists ts', lex (print lower printable r) = LOk ts' /\ parse_tokens ts' = POk (norm lower r) /\ alike ts ts'.
+Proof.
+  intros lower printable from to inp ts t Hnl Hid Hus Hv HL HP Hr Ht Hto Hpn r.
+  destruct (rename_full_reparse_stmt lower printable from to inp ts t Hnl Hv HL HP) as (H1 & H2 & H3). fold r in H1, H2, H3.
+  assert (HG : glue_free lower printable r = true).
+  { apply rename_full_glue_free; try assumption; [exact (parsed_shape inp ts t Hv HL HP)|].
+    apply names_ok_split; [exact Hr|exact (parsed_src inp ts t Hv HL HP)]. }
+  exists (ptoks lower printable r). split; [apply lex_print; exact HG|]. split; [exact H2|exact H1].
+Qed.
+
+Theorem rename_no_spurious_error_source_stmt : forall (lower : N -> N) (printable : N -> bool) (from to : ExSyntax.text) inp ts t,
+  printable 10 = false -> (forall c, lower (lower c) = lower c) -> lower 95 = 95 -> valid_codepoints inp ->
+  lex inp = LOk ts -> parse_tokens ts = POk t ->
+  refs_ok lower t = true -> texts_ok t = true ->
+  pname_ok (map lower to) = true -> (forall n, In n (target_names lower to) -> pname_ok n = true) ->
+  existsb (is_from lower from) (frefs (is_from lower from) t) = true ->
+  refactor_expression lower printable (rename_tx lower from to) inp = ROk (print lower printable (rename_full lower from to t)).
+Proof.
+  intros lower printable from to inp ts t Hnl Hid Hus Hv HL HP Hr Ht Hto Hpn Hex.
+  apply (rename_no_spurious_error_stmt lower printable from to inp ts t Hnl Hv HL HP Hex).
+  apply rename_full_glue_free; try assumption; [exact (parsed_shape inp ts t Hv HL HP)|].
+  apply names_ok_split; [exact Hr|exact (parsed_src inp ts t Hv HL HP)].
+Qed.
+
+(* the conditions are satisfiable where the alpha step fires: the input of hunt finding C11/1 (c_t, foo renamed to bar) *)
+Example rename_full_source_witness :
+  refs_ok s_lower c_t = true /\ texts_ok c_t = true /\ pname_ok (map s_lower [98; 97; 114]) = true
+  /\ target_names s_lower [98; 97; 114] = [[98; 97; 114]]
+  /\ existsb (is_from s_lower [102; 111; 111]) (frefs (is_from s_lower [102; 111; 111]) c_t) = true
+  /\ rename_full s_lower [102; 111; 111] [98; 97; 114] c_t <> rename (is_from s_lower [102; 111; 111]) [98; 97; 114] c_t.
+Proof. repeat split; try (vm_compute; reflexivity). vm_compute. discriminate. Qed.
